@@ -26,18 +26,20 @@ Proof.
     + eauto.
 Qed.
 
-(* [runs ss st st']: executing ss from st ends in st' and consumes a fixed amount F0 of fuel,
-   whatever follows *)
+(* [runs ss st st']: executing ss from st ends in st'; stated so that it composes and is
+   insensitive to spare fuel: whenever the continuation succeeds with F, the whole succeeds with
+   F0 + F *)
 Definition runs (ss : list stmt) (st st' : state) : Prop :=
-  exists F0 : nat, forall (F : nat) (r : list stmt), exec (F0 + F) (ss ++ r) st = exec F r st'.
+  exists F0 : nat, forall (F : nat) (r : list stmt) res,
+    exec F r st' = Some res -> exec (F0 + F) (ss ++ r) st = Some res.
 
 Lemma runs_nil st : runs [] st st.
-Proof. exists 0%nat. reflexivity. Qed.
+Proof. exists 0%nat. intros F r res H. exact H. Qed.
 
 Lemma runs_app a b st st1 st2 : runs a st st1 -> runs b st1 st2 -> runs (a ++ b) st st2.
 Proof.
-  intros [Fa Ha] [Fb Hb]. exists (Fa + Fb)%nat. intros F r.
-  rewrite <- app_assoc, <- Nat.add_assoc, Ha, Hb. reflexivity.
+  intros [Fa Ha] [Fb Hb]. exists (Fa + Fb)%nat. intros F r res H.
+  rewrite <- app_assoc, <- Nat.add_assoc. apply Ha, Hb, H.
 Qed.
 
 Lemma runs_cons s b st st1 st2 : runs [s] st st1 -> runs b st1 st2 -> runs (s :: b) st st2.
@@ -47,47 +49,64 @@ Lemma runs_exec ss st st' :
   runs ss st st' -> exists F0, forall f, (F0 <= f)%nat -> exec f ss st = Some st'.
 Proof.
   intros [F0 H]. exists F0. intros f Hf.
-  replace f with (F0 + (f - F0))%nat by lia. rewrite <- (app_nil_r ss), H. apply exec_nil.
+  apply (exec_mono F0); [|exact Hf].
+  rewrite <- (app_nil_r ss), <- (Nat.add_0_r F0). apply H. reflexivity.
 Qed.
 
-Lemma runs_assign x e st v st' :
-  eval st e = Some v -> set_var st x v = Some st' -> runs [SAssign x e] st st'.
-Proof. intros He Hs. exists 1%nat. intros F r. cbn. rewrite He, Hs. reflexivity. Qed.
-
-Lemma runs_store o aw i e st iv v st' :
-  eval st i = Some iv -> eval st e = Some v -> st_store st o aw iv v = Some st' ->
-  runs [SStore o aw i e] st st'.
-Proof. intros Hi He Hs. exists 1%nat. intros F r. cbn. rewrite Hi, He, Hs. reflexivity. Qed.
-
-Lemma runs_if_true c a b st v st' :
-  eval st c = Some v -> v <> 0 -> runs a st st' -> runs [SIf c a b] st st'.
+(* a closed execution (concrete fuel, no continuation) is a run *)
+Lemma exec_runs : forall f ss st st', exec f ss st = Some st' -> runs ss st st'.
 Proof.
-  intros Hc Hv [Fa Ha]. exists (S Fa). intros F r. cbn. rewrite Hc.
-  destruct (N.eqb_spec v 0); [contradiction|]. apply Ha.
+  intros f ss st st' H. exists f. revert ss st H.
+  induction f as [|f IH]; intros ss st H F r res Hr.
+  - destruct ss; [|discriminate]. cbn in H. inversion H; subst. exact Hr.
+  - destruct ss as [|s ss].
+    + cbn in H. inversion H; subst. cbn [app]. apply (exec_mono F); [exact Hr|lia].
+    + cbn [Nat.add app]. cbn in H |- *. destruct s.
+      * destruct (eval st e); [|discriminate]. destruct (set_var st x n); [|discriminate]. eauto.
+      * destruct (eval st idx); [|discriminate]. destruct (eval st e); [|discriminate].
+        destruct (st_store st o aw n n0); [|discriminate]. eauto.
+      * destruct (eval st c); [|discriminate]. rewrite app_assoc. eauto.
+      * match goal with |- exec _ (?p ++ ?i :: ?z ++ r) _ = _ =>
+          replace (p ++ i :: z ++ r) with ((p ++ i :: z) ++ r) by (rewrite <- app_assoc; reflexivity) end.
+        eauto.
 Qed.
-
-Lemma runs_if_false c a b st st' :
-  eval st c = Some 0 -> runs b st st' -> runs [SIf c a b] st st'.
-Proof. intros Hc [Fb Hb]. exists (S Fb). intros F r. cbn. rewrite Hc. cbn. apply Hb. Qed.
 
 Lemma runs_while_false pre c body st st1 :
   runs pre st st1 -> eval st1 c = Some 0 -> runs [SWhile pre c body] st st1.
 Proof.
-  intros [Fp Hp] Hc. exists (S (Fp + 1)). intros F r.
+  intros [Fp Hp] Hc. exists (S (Fp + 1)). intros F r res Hr.
   change (S (Fp + 1) + F)%nat with (S (Fp + 1 + F)). cbn [exec app].
-  rewrite <- Nat.add_assoc, Hp. cbn. rewrite Hc. reflexivity.
+  rewrite <- Nat.add_assoc. apply Hp. cbn. rewrite Hc. cbn. exact Hr.
 Qed.
 
 Lemma runs_while_true pre c body st st1 st2 st3 v :
   runs pre st st1 -> eval st1 c = Some v -> v <> 0 -> runs body st1 st2 ->
   runs [SWhile pre c body] st2 st3 -> runs [SWhile pre c body] st st3.
 Proof.
-  intros [Fp Hp] Hc Hv [Fb Hb] [Fw Hw]. exists (S (Fp + (1 + (Fb + Fw)))). intros F r.
+  intros [Fp Hp] Hc Hv [Fb Hb] [Fw Hw]. exists (S (Fp + (1 + (Fb + Fw)))). intros F r res Hr.
   change (S (Fp + (1 + (Fb + Fw))) + F)%nat with (S (Fp + (1 + (Fb + Fw)) + F)). cbn [exec app].
-  rewrite <- Nat.add_assoc, Hp. cbn [Nat.add exec]. rewrite Hc.
+  rewrite <- Nat.add_assoc. apply Hp. cbn [Nat.add exec]. rewrite Hc.
   destruct (N.eqb_spec v 0); [contradiction|].
-  rewrite <- !app_assoc, <- Nat.add_assoc, Hb. cbn [app]. apply (Hw F r).
+  rewrite <- !app_assoc, <- Nat.add_assoc. apply Hb. cbn [app]. apply (Hw F r res Hr).
 Qed.
+
+(* one-statement stepping equations (the per-kernel proofs execute symbolically with them) *)
+Lemma exec_assign f x e r st v st' :
+  eval st e = Some v -> set_var st x v = Some st' -> exec (S f) (SAssign x e :: r) st = exec f r st'.
+Proof. intros He Hs. cbn. rewrite He, Hs. reflexivity. Qed.
+
+Lemma exec_store f o aw i e r st iv v st' :
+  eval st i = Some iv -> eval st e = Some v -> st_store st o aw iv v = Some st' ->
+  exec (S f) (SStore o aw i e :: r) st = exec f r st'.
+Proof. intros Hi He Hs. cbn. rewrite Hi, He, Hs. reflexivity. Qed.
+
+Lemma exec_if f c a b r st v :
+  eval st c = Some v -> exec (S f) (SIf c a b :: r) st = exec f ((if v =? 0 then b else a) ++ r) st.
+Proof. intros Hc. cbn. rewrite Hc. reflexivity. Qed.
+
+Lemma exec_while f p c b r st :
+  exec (S f) (SWhile p c b :: r) st = exec f (p ++ SIf c (b ++ [SWhile p c b]) [] :: r) st.
+Proof. reflexivity. Qed.
 
 (* the first top-level loop of a body: (statements before, pre, condition, body, statements after) *)
 Fixpoint split_while (ss : list stmt) : option (list stmt * (list stmt * expr * list stmt) * list stmt) :=
@@ -194,6 +213,17 @@ Ltac is_N_const n :=
   | Npos ?p => is_pos_const p
   end.
 
+Ltac is_nat_const n :=
+  lazymatch n with
+  | O => idtac
+  | S ?m => is_nat_const m
+  end.
+Ltac is_Nlist_const l :=
+  lazymatch l with
+  | nil => idtac
+  | cons ?a ?r => is_N_const a; is_Nlist_const r
+  end.
+
 (* fold the arithmetic whose operands are all numerals (the reduction tactics below keep the N
    operations folded so that symbolic values stay readable) *)
 Ltac cfold1 :=
@@ -214,6 +244,12 @@ Ltac cfold1 :=
       is_N_const a; let v := eval vm_compute in (N.ones a) in change (N.ones a) with v
   | |- context [N.to_nat ?a] =>
       is_N_const a; let v := eval vm_compute in (N.to_nat a) in change (N.to_nat a) with v
+  | |- context [N.of_nat ?a] =>
+      is_nat_const a; let v := eval vm_compute in (N.of_nat a) in change (N.of_nat a) with v
+  | |- context [N_to_le ?k ?a] =>
+      is_nat_const k; is_N_const a; let v := eval vm_compute in (N_to_le k a) in change (N_to_le k a) with v
+  | |- context [le_to_N ?l] =>
+      is_Nlist_const l; let v := eval vm_compute in (le_to_N l) in change (le_to_N l) with v
   end.
 Ltac cfold := repeat cfold1.
 
@@ -238,10 +274,69 @@ Global Arguments wrap : simpl never.
 Global Arguments le_to_N : simpl never.
 Global Arguments N_to_le : simpl never.
 
-(* symbolic execution of the interpreter on a state whose shape is explicit: unfold the
-   interpreter, keep N arithmetic folded, fold what is constant, repeat *)
+(* ---- symbolic execution, one statement at a time.  Every evaluation is done on a small
+   isolated goal (cbn on a whole program is exponential in the nesting of stuck matches).
+   [hook] is run when an evaluation is stuck (e.g. a load at a symbolic index). *)
 Ltac ck_cbn :=
-  cbn [exec eval get_var set_var st_load st_store get_obj obj_load obj_store binop_eval cmp_eval
+  cbn [eval get_var set_var st_load st_store get_obj obj_load obj_store binop_eval cmp_eval
        nth_error upd app length st_vars st_objs o_cw o_cells mkobj mkstate Nat.ltb Nat.leb
-       andb orb negb Nat.add firstn skipn].
-Ltac ck_run := repeat (progress (ck_cbn; cfold)).
+       andb orb negb firstn skipn].
+Ltac ck_simp := repeat (progress (ck_cbn; try unfold obj_load, obj_store, cmp_eval; ck_cbn; cfold; cbv iota)).
+Ltac ck_solve hook := ck_simp; repeat (progress (hook; ck_simp)); reflexivity.
+
+(* give a computed value a name (an opaque equation in the context) unless it is a numeral or
+   already a variable: states stay small however often a value is reused; [subst] at the end *)
+Ltac ck_name H :=
+  lazymatch type of H with
+  | _ = Some ?v =>
+      tryif first [ is_N_const v | is_var v ] then idtac
+      else (let x := fresh "val" in remember v as x)
+  end.
+
+Ltac ck_step hook :=
+  lazymatch goal with
+  | |- exec (S ?f) (SAssign ?x ?e :: ?r) ?st = _ =>
+      let H := fresh "Hev" in
+      eassert (H : eval st e = Some _) by (ck_solve hook);
+      ck_name H;
+      erewrite (exec_assign f x e r st _ _ H) by (ck_solve hook); clear H
+  | |- exec (S ?f) (SStore ?o ?aw ?i ?e :: ?r) ?st = _ =>
+      let Hi := fresh "Hev" in let He := fresh "Hev" in
+      eassert (Hi : eval st i = Some _) by (ck_solve hook);
+      eassert (He : eval st e = Some _) by (ck_solve hook);
+      ck_name He;
+      erewrite (exec_store f o aw i e r st _ _ _ Hi He) by (ck_solve hook); clear Hi He
+  | |- exec (S ?f) (SIf ?c ?a ?b :: ?r) ?st = _ =>
+      let H := fresh "Hev" in
+      eassert (H : eval st c = Some _) by (ck_solve hook);
+      rewrite (exec_if f c a b r st _ H); clear H; try unfold cmp_eval; cfold; cbv iota; cfold; cbv iota; cbn [app]
+  | |- exec (S ?f) (SWhile ?p ?c ?b :: ?r) ?st = _ =>
+      rewrite (exec_while f p c b r st); cbn [app]
+  | |- exec _ [] ?st = _ => rewrite exec_nil
+  end.
+Ltac ck_steps hook := repeat ck_step hook.
+
+(* the same stepper for an [exec] anywhere in the goal (e.g. under the [match] of a generated
+   wrapper): the names and equations it introduces stay in the context of the goal *)
+Ltac ck_cstep hook :=
+  lazymatch goal with
+  | |- context [exec (S ?f) (SAssign ?x ?e :: ?r) ?st] =>
+      let H := fresh "Hev" in
+      eassert (H : eval st e = Some _) by (ck_solve hook);
+      ck_name H;
+      erewrite (exec_assign f x e r st _ _ H) by (ck_solve hook); clear H
+  | |- context [exec (S ?f) (SStore ?o ?aw ?i ?e :: ?r) ?st] =>
+      let Hi := fresh "Hev" in let He := fresh "Hev" in
+      eassert (Hi : eval st i = Some _) by (ck_solve hook);
+      eassert (He : eval st e = Some _) by (ck_solve hook);
+      ck_name He;
+      erewrite (exec_store f o aw i e r st _ _ _ Hi He) by (ck_solve hook); clear Hi He
+  | |- context [exec (S ?f) (SIf ?c ?a ?b :: ?r) ?st] =>
+      let H := fresh "Hev" in
+      eassert (H : eval st c = Some _) by (ck_solve hook);
+      rewrite (exec_if f c a b r st _ H); clear H; try unfold cmp_eval; cfold; cbv iota; cfold; cbv iota; cbn [app]
+  | |- context [exec (S ?f) (SWhile ?p ?c ?b :: ?r) ?st] =>
+      rewrite (exec_while f p c b r st); cbn [app]
+  | |- context [exec ?f [] ?st] => rewrite (exec_nil f st)
+  end.
+Ltac ck_csteps hook := repeat ck_cstep hook.
